@@ -417,7 +417,8 @@ def grep_gate():
 
 def write_evidence(prop, tier, seed, coverage, wall, violations, assumptions):
     os.makedirs(os.path.join(ROOT, 'evidence'), exist_ok=True)
-    ev = dict(property_id=prop, tier=tier, seed=seed, level='proof', coverage=coverage, assumptions=assumptions,
+    level = 'proof' if coverage.get('discharged', 0) >= 1 and coverage.get('discharged') == coverage.get('obligations') else 'exploration'
+    ev = dict(property_id=prop, tier=tier, seed=seed, level=level, coverage=coverage, assumptions=assumptions,
               wall_s=round(wall, 2), violations=violations)
     with open(os.path.join(ROOT, 'evidence', prop + '.json'), 'w') as f:
         json.dump(ev, f, indent=1)
